@@ -228,6 +228,7 @@ func Env() (keeper.Keeper, sdk.Context) {
 	if _, ok := R.Inputs["param.SlashFraction"]; ok {
 		p.SlashFraction = Dec("param.SlashFraction")
 	}
+	theCtx = ctx
 	App.ServiceKeeper.SetParams(ctx, p)
 	// the service module accounts exist (created at genesis in a live chain)
 	App.AccountKeeper.GetModuleAccount(ctx, types.DepositAccName)
